@@ -685,6 +685,25 @@ func (fr *Frame) havocLoc(env *Env, loc Expr, st *State) {
 				return
 			case "$allof":
 				name := l.Args[0].(*EIdent).Name
+				if strings.HasPrefix(name, "elems ") {
+					// all(elems T): every slice/array element cell holding a T (in-place appends into lists whose
+					// backing arrays cannot be named)
+					ty := g.W.resolveType(env.pkg, strings.TrimSpace(name[len("elems "):]), g)
+					if _, isS := isStruct(ty.G); isS {
+						g.fail("modifies all(%s): struct element type", name)
+					}
+					key, es := g.heapKeyT(ty.G), g.sortOf(ty.G)
+					old := g.heap(st, key, es)
+					nh := g.sc.Fresh(key, old.Sort)
+					g.heapWF(nh.S, es, g.curBase, false)
+					g.sc.Assume(fmt.Sprintf("(forall ((r Ref)) (! (or ((_ is Elem) r) (= (select %s r) (select %s r))) :pattern ((select %s r))))", nh.S, old.S, nh.S))
+					st.heaps[key] = nh
+					g.logWholeWrite(key, es, "shape:")
+					if g.frec != nil {
+						*g.frec = append(*g.frec, frameW{key, "((_ is Elem) r)"})
+					}
+					return
+				}
 				if !strings.HasPrefix(name, "$") {
 					// all(Type.field): that field of every object (cells of other shapes in the same heap component
 					// are framed)
